@@ -21,7 +21,8 @@ def handle(job):
   rank = 2
   shapes = [(6, 6)]
   T = len(steps)
-  beta2 = {0: 0.75, 4: 0.75, 6: 1.0 - 1.0 / 6.0}[R]
+  # R is the DOCUMENTED period round(1 / (1 - beta2)); 0.62 gives 1 / 0.38 = 2.63 -> 3 (a truncation gives 2)
+  beta2 = {0: 0.75, 3: 0.62, 4: 0.75, 6: 1.0 - 1.0 / 6.0}[R]
   o = {"mode": "rep", "fd": True, "compression_rank": rank, "reuse": True, "S": S, "P": S,
        "average_grad": avg, "reset": R != 0, "beta2": beta2, "block_size": 8, "merge": False,
        "matrix_epsilon": 0.0, "Start": 1, "graft": "SGD", "beta1": 0.0}
